@@ -25,26 +25,31 @@ type VHFrame struct {
 
 // VHLink is a capture LinkEndpoint.
 type VHLink struct {
-	Mtu    uint32
-	Caps   LinkEndpointCapabilities
-	HdrLen uint16
-	Addr   tcpip.LinkAddress
-	Err    *tcpip.Error
-	Sent   []VHFrame
-	Disp   NetworkDispatcher
+	Mtu       uint32
+	Caps      LinkEndpointCapabilities
+	HdrLen    uint16
+	Addr      tcpip.LinkAddress
+	Err       *tcpip.Error
+	FailFirst int // the first FailFirst writes fail with ErrWouldBlock (transient link error)
+	Sent      []VHFrame
+	Disp      NetworkDispatcher
 }
 
-func (l *VHLink) MTU() uint32                           { return l.Mtu }
+func (l *VHLink) MTU() uint32                            { return l.Mtu }
 func (l *VHLink) Capabilities() LinkEndpointCapabilities { return l.Caps }
-func (l *VHLink) MaxHeaderLength() uint16               { return l.HdrLen }
-func (l *VHLink) LinkAddress() tcpip.LinkAddress        { return l.Addr }
-func (l *VHLink) Attach(d NetworkDispatcher)            { l.Disp = d }
-func (l *VHLink) IsAttached() bool                      { return l.Disp != nil }
+func (l *VHLink) MaxHeaderLength() uint16                { return l.HdrLen }
+func (l *VHLink) LinkAddress() tcpip.LinkAddress         { return l.Addr }
+func (l *VHLink) Attach(d NetworkDispatcher)             { l.Disp = d }
+func (l *VHLink) IsAttached() bool                       { return l.Disp != nil }
 func (l *VHLink) WritePacket(r *Route, hdr buffer.Prependable, payload buffer.VectorisedView, proto tcpip.NetworkProtocolNumber) *tcpip.Error {
 	h := append([]byte{}, hdr.View()...)
 	p := append([]byte{}, payload.ToView()...)
 	l.Sent = append(l.Sent, VHFrame{Hdr: h, Payload: p, Views: len(payload.Views()), Proto: proto,
 		RemoteLink: r.RemoteLinkAddress, LocalLink: r.LocalLinkAddress, Local: r.LocalAddress, Remote: r.RemoteAddress})
+	if l.FailFirst > 0 {
+		l.FailFirst--
+		return tcpip.ErrWouldBlock
+	}
 	return l.Err
 }
 
@@ -71,14 +76,14 @@ type VHNet struct {
 	Sent   []VHPacket
 }
 
-func (e *VHNet) DefaultTTL() uint8                      { return e.Ttl }
-func (e *VHNet) MTU() uint32                            { return e.Mtu }
-func (e *VHNet) Capabilities() LinkEndpointCapabilities { return e.Caps }
-func (e *VHNet) MaxHeaderLength() uint16                { return e.HdrLen }
-func (e *VHNet) ID() *NetworkEndpointID                 { return &e.Id }
-func (e *VHNet) NICID() tcpip.NICID                     { return e.Nic }
+func (e *VHNet) DefaultTTL() uint8                               { return e.Ttl }
+func (e *VHNet) MTU() uint32                                     { return e.Mtu }
+func (e *VHNet) Capabilities() LinkEndpointCapabilities          { return e.Caps }
+func (e *VHNet) MaxHeaderLength() uint16                         { return e.HdrLen }
+func (e *VHNet) ID() *NetworkEndpointID                          { return &e.Id }
+func (e *VHNet) NICID() tcpip.NICID                              { return e.Nic }
 func (e *VHNet) HandlePacket(r *Route, vv buffer.VectorisedView) {}
-func (e *VHNet) Close()                                 {}
+func (e *VHNet) Close()                                          {}
 func (e *VHNet) WritePacket(r *Route, hdr buffer.Prependable, payload buffer.VectorisedView, proto tcpip.TransportProtocolNumber, ttl uint8) *tcpip.Error {
 	h := append([]byte{}, hdr.View()...)
 	p := append([]byte{}, payload.ToView()...)
@@ -189,4 +194,6 @@ func (c *VHLinkCache) GetLinkAddress(nicid tcpip.NICID, addr, localAddr tcpip.Ad
 	c.Asked = append(c.Asked, addr)
 	return c.Link, nil, c.Err
 }
-func (c *VHLinkCache) RemoveWaker(nicid tcpip.NICID, addr tcpip.Address, waker *sleep.Waker) { c.Wakers++ }
+func (c *VHLinkCache) RemoveWaker(nicid tcpip.NICID, addr tcpip.Address, waker *sleep.Waker) {
+	c.Wakers++
+}
